@@ -54,17 +54,18 @@ class Prop:
 class C15(Prop):
     owns_determinism = True
     id = "C15"
-    scen_order = ["pairs", "dialects", "triples", "sweep", "reuse", "interleave"]
+    scen_order = ["pairs", "dialects", "nested", "nested-all", "triples", "sweep", "reuse", "interleave"]
     counts = {
-        "quick": {"pairs": "all", "dialects": "all", "triples": 0, "sweep": 0, "reuse": 4000, "interleave": 10000},
-        "thorough": {"pairs": "all", "dialects": "all", "triples": "all", "sweep": "all", "reuse": 120000, "interleave": 700000},
+        "quick": {"pairs": "all", "dialects": "all", "nested": "all", "nested-all": 0, "triples": 0, "sweep": 0, "reuse": 4000, "interleave": 10000},
+        "thorough": {"pairs": "all", "dialects": "all", "nested": 0, "nested-all": "all", "triples": "all", "sweep": "all", "reuse": 120000, "interleave": 700000},
     }
 
     def count(self, scen, tier):
         from . import scen_c15
         c = self.counts[tier][scen]
         if c == "all":
-            return {"pairs": scen_c15.n_pairs, "sweep": scen_c15.n_sweep, "dialects": scen_c15.n_dialects, "triples": scen_c15.n_triples}[scen]()
+            return {"pairs": scen_c15.n_pairs, "sweep": scen_c15.n_sweep, "dialects": scen_c15.n_dialects, "triples": scen_c15.n_triples,
+                    "nested": scen_c15.n_nested, "nested-all": lambda: scen_c15.n_nested(True)}[scen]()
         return scaled(c)
 
     def spec(self, scen, index, seed):
@@ -77,6 +78,8 @@ class C15(Prop):
             return scen_c15.sweep_spec(index)
         if scen == "dialects":
             return scen_c15.dialect_spec(index)
+        if scen in ("nested", "nested-all"):
+            return scen_c15.nested_spec(index, scen == "nested-all")
         rng = random.Random(splitmix64(seed, "C15/" + scen, index))
         return scen_c15.gen_reuse(rng) if scen == "reuse" else scen_c15.gen_interleave(rng)
 
@@ -121,6 +124,8 @@ class C15(Prop):
             "dialect_pairs_done": runs.get("dialects", 0), "dialect_pairs_total": scen_c15.n_dialects(),
             "sweep_all_two_task_interleavings_done": runs.get("sweep", 0), "sweep_total": scen_c15.n_sweep() if runs.get("sweep") else None,
             "sweep_documents": [d[0] for d in scen_c15.SWEEP_DOCS],
+            "nested_one_thread_pairs_x_gaps_done": runs.get("nested", 0) + runs.get("nested-all", 0),
+            "nested_one_thread_total_every_gap": scen_c15.n_nested(True) if runs.get("nested-all") else None,
             "schedules_distinct": len(merged["schedules"]), "joint_states_distinct": len(merged["joint"]),
             "parser_states_total": _parser_states_total(),
             "dirty_probe_hits": merged["dirty"],
